@@ -171,6 +171,8 @@ class Reader:
         u = self.kids(node, "union")[0]
         members = [self.stype_ref(self.qname(u, t, doc)) for t in (u.get("memberTypes") or "").split()]
         members += [self.stype_def(s, doc) for s in self.kids(u, "simpleType")]
+        if members and all(m == members[0] for m in members):
+            return members[0]                       # a union of one type with itself is that type
         return ["union", members]
 
     # ---------------------------------------------------------------- types
